@@ -16,7 +16,7 @@ for d in sorted(glob.glob('/verif/seeded/*/meta.json')):
         cls.append(a+' / '+b.split('(')[0][:60])
     cls=sorted(set(cls))[:2]
     code=m['check_run']['exit']
-    caught='yes' if code==1 else ('exit 2 (infrastructure)' if code==2 else 'NO')
+    caught='yes' if code==1 else ('exit 2 (infrastructure)' if code==2 else 'no (exit 0)')
     rows.append(f"| {n} | {mech} | {need} | {caught}: {'; '.join(cls)} |")
 tab="\n".join(rows)
 p='/verif/DESIGN.md'
